@@ -76,4 +76,15 @@ def dExp : Str → Str
   | a :: rest => a :: dExp rest
   | [] => []
 
+/-! ### rounding intrinsics: what Fortran's `NINT` computes and what C's `rint` computes (exact rationals) -/
+
+/-- Fortran `NINT`: to the nearest integer, halves away from zero -/
+def fnint (q : Rat) : Int := if 0 ≤ q then (q + 1/2).floor else -((-q + 1/2).floor)
+
+/-- C `rint` in the default rounding mode: to the nearest integer, halves to the even neighbour -/
+def crint (q : Rat) : Int :=
+  let f := q.floor
+  let r := q - f
+  if r < 1/2 then f else if 1/2 < r then f + 1 else (if f % 2 = 0 then f else f + 1)
+
 end Naunet.Fortran
